@@ -675,7 +675,8 @@ class MarkdownNormalizer(Renderer):
         """
         lines: list[str] = []
         head, *body = element.children
-        lines.append(self.render(head))
+        lines.append(self._prefix + self.render(head))
+        self._prefix = self._second_prefix
 
         normalized_delimiters: list[str] = []
         for delimiter in element.delimiters:
@@ -693,9 +694,9 @@ class MarkdownNormalizer(Renderer):
                 normalized_delimiter = "---"
             normalized_delimiters.append(normalized_delimiter)
 
-        lines.append(f"| {' | '.join(normalized_delimiters)} |\n")
+        lines.append(f"{self._second_prefix}| {' | '.join(normalized_delimiters)} |\n")
         for row in body:
-            lines.append(self.render(row))
+            lines.append(self._second_prefix + self.render(row))
         return "".join(lines)
 
     def render_table_row(self, element: gfm_elements.TableRow) -> str:
@@ -731,7 +732,8 @@ class MarkdownNormalizer(Renderer):
 
         # First render the alert header (Alert has alert_type attribute)
         alert_type: str = element.alert_type  # pyright: ignore
-        alert_header = f"> [!{alert_type}]\n"
+        alert_header = f"{self._prefix}> [!{alert_type}]\n"
+        self._prefix = self._second_prefix
 
         with self.container("> ", "> "):
             result = self.render_children(element).rstrip("\n")
